@@ -500,8 +500,8 @@ func regC03(add addFn, p pFn) {
 	}
 	add(&Instance{Property: "C03", Name: "handler-2req-sm1", Entry: "spnego.VH_C03_Handler", Params: p("requests", 2, "sm", 1, "shape", -2, "fixoid", 1, "seqlens", 4, "maxstr", 1), Stubs: stubs, Replay: "stubbed", TimeoutS: 900,
 		Reach: []string{"served", "refused", "served-under-session", "session-created"}, Bound: "two requests with a session manager (cookie present or not, store failing or not); header absent or a decodable token whose lists have 2 elements and OIDs are KRB5 (token shapes are the 1-request instances' subject)"})
-	add(&Instance{Property: "C03", Name: "handler-3req-sm1", Entry: "spnego.VH_C03_Handler", Params: p("requests", 3, "sm", 1, "shape", -2, "fixoid", 1, "seqlens", 4, "maxstr", 1), Stubs: stubs, Replay: "stubbed", Tier: "thorough", TimeoutS: 3000,
-		Reach: []string{"served", "refused", "served-under-session", "session-created"}, Bound: "three requests with a session manager"})
+	add(&Instance{Property: "C03", Name: "handler-3req-sm1", Entry: "spnego.VH_C03_Handler", Params: p("requests", 3, "sm", 1, "shape", -2, "fixoid", 1, "seqlens", 4, "maxstr", 1), Stubs: stubs, Replay: "stubbed", Tier: "thorough", TimeoutS: 8000, MaxPaths: 1500000,
+		Reach: []string{"served", "refused", "served-under-session", "session-created"}, Bound: "three requests with a session manager (677 097 paths)"})
 }
 
 func regC18(add addFn, p pFn) {
@@ -569,6 +569,12 @@ func regC20c(add addFn, p pFn) {
 }
 
 func regC10b(add addFn, p pFn) {
+	for _, et := range []int{17, 18, 19, 20, 16, 23} {
+		for c, cn := range []string{"password", "keytab"} {
+			add(&Instance{Property: "C10", Name: "preauth-timestamp-" + cn + "-e" + itoa(et), Entry: "client.VH_C10_PreAuthTimestamp", Params: p("etype", et, "creds", c), Stubs: []string{"lineartime", "asn1pair", "encpair", "nfolduf", "des3rtkuf"}, Logic: "QF_UFBV", Replay: "stubbed",
+				Reach: []string{"checked"}, Bound: "PA-ENC-TIMESTAMP computed from a " + cn + " (2 symbolic password bytes / a symbolic keytab key) for pre-auth enctype " + itoa(et) + "; a stale value already in the request"})
+		}
+	}
 	for _, rn := range []int{0, 1} {
 		add(&Instance{Property: "C10", Name: "session-refresh-renewable" + itoa(rn), Entry: "client.VH_C10_SessionRefresh", Params: p("renewable", rn, "maxseq", 1, "maxstr", 1), Stubs: []string{"lineartime", "kdcstub", "asn1havoc", "decryptstub", "randstub"}, Replay: "stubbed", TimeoutS: 600,
 			Reach: []string{"still-fresh"}, Bound: "a TGT session with arbitrary auth/end/renew-till instants; the KDC renews when asked (renewable=1) or is unreachable for the fresh login (renewable=0)"})
